@@ -157,7 +157,9 @@ func enterBlock(pred, succ *ssa.BasicBlock, st nilState) nilState {
 		delete(ns, phi)
 		if idx >= 0 && idx < len(phi.Edges) {
 			if n := st.of(phi.Edges[idx]); n != 0 {
-				ns[phi] = n
+				ns[phi] = int32(n)
+			} else if k, ok := st.intOf(phi.Edges[idx]); ok {
+				ns[phi] = intBase + int32(k)
 			}
 		}
 	}
@@ -207,7 +209,7 @@ func feasibleSuccs(blk *ssa.BasicBlock, st nilState, refineAll bool) []psItem {
 		for k, v := range st {
 			ns[k] = v
 		}
-		ns[x] = n
+		ns[x] = int32(n)
 		return ns
 	}
 	worth := func(x ssa.Value) bool {
@@ -215,9 +217,9 @@ func feasibleSuccs(blk *ssa.BasicBlock, st nilState, refineAll bool) []psItem {
 	}
 	if b, ok := cond.(*ssa.BinOp); ok && (b.Op == token.EQL || b.Op == token.NEQ) {
 		var x ssa.Value
-		if isNilConst(b.Y) {
+		if isZeroLike(b.Y) {
 			x = b.X
-		} else if isNilConst(b.X) {
+		} else if isZeroLike(b.X) {
 			x = b.Y
 		}
 		if x != nil {
@@ -259,6 +261,12 @@ func feasibleSuccs(blk *ssa.BasicBlock, st nilState, refineAll bool) []psItem {
 // explore walks the (block, state) pairs reachable from the given items without using cut edges.  visit is called
 // once per pair before its successors are considered and returns false to stop below that pair.
 func explore(start []psItem, cut map[Edge]bool, refineAll bool, visit func(b *ssa.BasicBlock, st nilState) bool) {
+	exploreCond(start, cut, nil, refineAll, visit)
+}
+
+// exploreCond: as explore, with cuts that depend on the state in which the edge is taken (an edge guarded by a test
+// whose operand is a phi of constants is cut only on the paths that selected a particular constant).
+func exploreCond(start []psItem, cut map[Edge]bool, condCut func(e Edge, st nilState) bool, refineAll bool, visit func(b *ssa.BasicBlock, st nilState) bool) {
 	seen := map[string]bool{}
 	work := append([]psItem(nil), start...)
 	plain := false
@@ -294,6 +302,9 @@ func explore(start []psItem, cut map[Edge]bool, refineAll bool, visit func(b *ss
 			if cut[Edge{it.blk, n.blk}] {
 				continue
 			}
+			if condCut != nil && !plain && condCut(Edge{it.blk, n.blk}, it.st) {
+				continue
+			}
 			st := n.st
 			if !plain {
 				st = enterBlock(it.blk, n.blk, n.st)
@@ -309,6 +320,19 @@ func reachable(fn *ssa.Function, cut map[Edge]bool) map[*ssa.BasicBlock]bool {
 		return map[*ssa.BasicBlock]bool{}
 	}
 	return reachableFrom(fn.Blocks[0], cut)
+}
+
+// reachableCond: reachable with state-dependent cuts.
+func reachableCond(fn *ssa.Function, cut map[Edge]bool, condCut func(e Edge, st nilState) bool) map[*ssa.BasicBlock]bool {
+	seen := map[*ssa.BasicBlock]bool{}
+	if len(fn.Blocks) == 0 {
+		return seen
+	}
+	exploreCond([]psItem{{fn.Blocks[0], nilState{}}}, cut, condCut, false, func(b *ssa.BasicBlock, _ nilState) bool {
+		seen[b] = true
+		return true
+	})
+	return seen
 }
 
 // reachableFrom computes blocks reachable from start (inclusive) with edges cut.
@@ -397,7 +421,27 @@ func instrDominates(a, b ssa.Instruction) bool {
 	if a.Block() == b.Block() {
 		return instrIndex(a) < instrIndex(b)
 	}
-	return a.Block().Dominates(b.Block())
+	if a.Block().Dominates(b.Block()) {
+		return true
+	}
+	// not a dominator of the plain CFG, but every feasible path may still pass it: the paths around it are of the
+	// form "error recorded; break; … if err != nil { return }", whose false edge the traversal engine prunes
+	if a.Parent() != b.Parent() || a.Parent() == nil {
+		return false
+	}
+	return mustPassBefore(a.Parent(), b, func(x ssa.Instruction) bool { return x == a })
+}
+
+// reachesViaEdge: target can be reached on a feasible path that enters blk from pred.
+func reachesViaEdge(pred, blk, target *ssa.BasicBlock) bool {
+	hit := false
+	explore([]psItem{{blk, enterBlock(pred, blk, nilState{})}}, nil, false, func(b *ssa.BasicBlock, _ nilState) bool {
+		if b == target {
+			hit = true
+		}
+		return !hit
+	})
+	return hit
 }
 
 // edgeDominates: every path from entry to block t uses edge e.
@@ -520,7 +564,9 @@ func mustPassFromBlock(b *ssa.BasicBlock, through func(ssa.Instruction) bool) (b
 // the branch establishes about x.  A path-sensitive dataflow over the three-point lattice {nil, non-nil, unknown}
 // per error value; nothing is executed.
 
-type nilState map[ssa.Value]int8 // 1 nil, 2 non-nil
+type nilState map[ssa.Value]int32 // 1 nil / false, 2 non-nil / true, intBase+k: the small integer constant k
+
+const intBase = 1 << 20
 
 func (s nilState) key() string {
 	var ks []string
@@ -531,19 +577,51 @@ func (s nilState) key() string {
 	return strings.Join(ks, ",")
 }
 
+// intOf: the integer constant v is known to be (a constant itself, or a phi that received one on the edge taken).
+func (s nilState) intOf(v ssa.Value) (int64, bool) {
+	v = stripConv(v)
+	if c, ok := v.(*ssa.Const); ok && c.Value != nil && c.Value.Kind() == constant.Int {
+		if k, ok := constant.Int64Val(c.Value); ok && k >= 0 && k < intBase {
+			return k, true
+		}
+		return 0, false
+	}
+	if n, ok := s[v]; ok && n >= intBase {
+		return int64(n - intBase), true
+	}
+	return 0, false
+}
+
 func (s nilState) of(v ssa.Value) int8 {
 	for {
 		if isNilConst(v) {
 			return 1
 		}
 		if n, ok := s[v]; ok {
-			return n
+			if n >= intBase {
+				return 0
+			}
+			return int8(n)
 		}
 		if c, ok := v.(*ssa.Const); ok && c.Value != nil && c.Value.Kind() == constant.Bool {
 			if constant.BoolVal(c.Value) {
 				return 2
 			}
 			return 1
+		}
+		// strings: empty / not empty (a message variable that is tested against "" once)
+		if c, ok := v.(*ssa.Const); ok && c.Value != nil && c.Value.Kind() == constant.String {
+			if constant.StringVal(c.Value) == "" {
+				return 1
+			}
+			return 2
+		}
+		if b, ok := v.(*ssa.BinOp); ok && b.Op == token.ADD {
+			if bt, ok := b.Type().Underlying().(*types.Basic); ok && bt.Info()&types.IsString != 0 {
+				if s.of(b.X) == 2 || s.of(b.Y) == 2 {
+					return 2
+				}
+			}
 		}
 		switch x := v.(type) {
 		case *ssa.ChangeInterface:
@@ -676,4 +754,13 @@ func successMustPass(fn *ssa.Function, through func(ssa.Instruction) bool) (ok b
 		return true
 	})
 	return
+}
+
+// isZeroLike: the nil constant or the empty string constant.
+func isZeroLike(v ssa.Value) bool {
+	if isNilConst(v) {
+		return true
+	}
+	c, ok := v.(*ssa.Const)
+	return ok && c.Value != nil && c.Value.Kind() == constant.String && constant.StringVal(c.Value) == ""
 }
